@@ -80,6 +80,32 @@ Section Adversary.
   Qed.
 End Adversary.
 
+(** Chains: only the end-entity certificate matters, for admission and for the identity. *)
+Lemma chain_tail_irrelevant pin names c r1 r2 p t :
+  accept_chain pin names (c :: r1) p t = accept_chain pin names (c :: r2) p t.
+Proof. reflexivity. Qed.
+
+Lemma chain_identity_is_end_entity K fresh pin names ch p x :
+  producible_proof K fresh p ->
+  accept_chain pin names ch p fresh = Some x ->
+  In x K /\ exists c rest, ch = c :: rest /\ x = c_key c.
+Proof.
+  intros Hp H. destruct ch as [|c rest]; [discriminate|]. cbn [accept_chain] in H. split.
+  - eapply attributed_identity_is_proven; eassumption.
+  - exists c, rest. split; [reflexivity|]. now destruct (accept_remote_facts _ _ _ _ _ _ H) as [-> _].
+Qed.
+
+(** Appending (or inserting anywhere behind the first place) certificates of identities whose
+    keys the adversary lacks never gets it attributed one of them. *)
+Lemma chain_extra_certificates_useless K fresh pin names c extra p x :
+  producible_proof K fresh p ->
+  accept_chain pin names (c :: extra) p fresh = Some x ->
+  x = c_key c /\ In x K.
+Proof.
+  intros Hp H. destruct (chain_identity_is_end_entity _ _ _ _ _ _ _ Hp H) as [I [c' [r [E X]]]].
+  inversion E; subst. auto.
+Qed.
+
 (** A certificate carrying X's key but signed with another key is rejected (self-signed policy). *)
 Lemma resigned_rejected pin names c p t :
   c_signed_by c <> c_key c -> accept_remote pin names c p t = None.
